@@ -40,7 +40,10 @@ func (e *Engine) exec(st *State, th *Thread, fr *Frame, in ssa.Instruction) {
 	case *ssa.Alloc:
 		et := x.Type().(*types.Pointer).Elem()
 		site := exprText(e.prog, x.Pos())
-		if x.Heap && e.cfg.TrackAlloc {
+		if x.Heap && e.cfg.TrackAlloc && fr.fn.Pkg != nil && strings.HasPrefix(fr.fn.Pkg.Pkg.Path(), modPath) {
+			// go/ssa's Heap flag is a conservative escape approximation; it is trusted for the
+			// repository's own functions only (dependencies such as net/netip spill arrays the gc
+			// compiler keeps on the stack)
 			e.noteAlloc(st, fr, "new "+et.String(), x.Pos())
 		}
 		if n, ok := isByteArray(et); ok {
